@@ -69,7 +69,7 @@ def gen_config(rng, allow_nonlinear=True, max_up=300.0, max_down=3000.0, datatyp
         cfg["prec"] = rng.choice([15, 16, 17.5, 20, 20.5, 24, 28, 32, 33])
     if rng.chance(.3):
         cfg["min"] = 8 + rng.below(8)
-        cfg["large"] = 13 + rng.below(8)      # ≤ 12 is the pinned tree's F5 region; C09 sweeps it deliberately
+        cfg["large"] = 8 + rng.below(13)      # the whole documented range 8..20 (F5, which broke <= 12 with SIMD up-sampling, is repaired)
         cfg["kb"] = 100 + rng.below(701)
     if rng.chance(.2):
         cfg["rtflags"] = rng.choice([0, 1, 2, 3, 8, 9])               # coefficient interpolation, NOSMALLINTOPT
